@@ -833,10 +833,45 @@ struct ConcRun {
     panic: Option<String>,
 }
 
+/// `AnyEntrySink` that replays every appended entry into the recording writer (the reporter's destination)
+#[derive(Clone, Default)]
+struct ReplaySink(Arc<std::sync::Mutex<Vec<(CanonEntry, bool)>>>, Arc<AtomicUsize>);
+
+impl metrique_writer_core::AnyEntrySink for ReplaySink {
+    fn append_any(&self, entry: impl Entry + Send + 'static) {
+        let live = self.1.load(Ordering::SeqCst) > 0;
+        let e = canon_entry(&replay(&entry));
+        self.0.lock().unwrap().push((e, live));
+    }
+    fn flush_async(&self) -> metrique_writer_core::sink::FlushWait {
+        metrique_writer_core::sink::FlushWait::ready()
+    }
+}
+
+/// `readers == 0`: the readouts are made by a real `MetricReporter` task (publish interval 1 ms, multi-threaded
+/// runtime) appending to a replaying sink; the final readout is the one `shutdown()` publishes.
 fn run_conc(ez: bool, readers: usize, rep: usize, threads: &[Vec<Op>]) -> ConcRun {
-    let rec: Rec = MetricRecorder::new_with_emit_zero_counters(ez);
-    let barrier = Arc::new(Barrier::new(threads.len() + readers));
     let running = Arc::new(AtomicUsize::new(threads.len()));
+    let sink = ReplaySink(Default::default(), running.clone());
+    let reporter_rt = if readers == 0 {
+        Some(tokio::runtime::Builder::new_multi_thread().worker_threads(2).enable_time().build().expect("runtime"))
+    } else {
+        None
+    };
+    let (reporter, rec): (Option<metrique_metricsrs::MetricReporter>, Rec) = match &reporter_rt {
+        Some(rt) => {
+            let _g = rt.enter();
+            let (rp, rec) = metrique_metricsrs::MetricReporter::builder()
+                .metrics_sink((sink.clone(), ()))
+                .emit_zero_counters(ez)
+                .metrics_publish_interval(std::time::Duration::from_millis(1))
+                .metrics_rs_version::<dyn metrics::Recorder>()
+                .build_without_installing();
+            (Some(rp), rec)
+        }
+        None => (None, MetricRecorder::new_with_emit_zero_counters(ez)),
+    };
+    let barrier = Arc::new(Barrier::new(threads.len() + readers));
     let panicked = Arc::new(AtomicBool::new(false));
     let mut all: Vec<(CanonEntry, bool)> = vec![];
     let mut panic = None;
@@ -901,7 +936,26 @@ fn run_conc(ez: bool, readers: usize, rep: usize, threads: &[Vec<Op>]) -> ConcRu
         }
     });
     // the final readout, after every updater and reader has finished
-    let fin = canon_entry(&replay(&rec.readout()));
+    let mut no_final = false;
+    let fin = match (&reporter_rt, &reporter) {
+        (Some(rt), Some(rp)) => {
+            rt.block_on(rp.shutdown());
+            let mut got = std::mem::take(&mut *sink.0.lock().unwrap());
+            match got.pop() {
+                Some((last, _)) => {
+                    all.extend(got);
+                    last
+                }
+                None => {
+                    no_final = true;
+                    canon_entry(&replay(&rec.readout()))
+                }
+            }
+        }
+        _ => canon_entry(&replay(&rec.readout())),
+    };
+    drop(reporter);
+    drop(reporter_rt);
     let overlapping = all.iter().filter(|(_, live)| *live).count();
     let n_readouts = all.len() + 1;
 
@@ -955,6 +1009,9 @@ fn run_conc(ez: bool, readers: usize, rep: usize, threads: &[Vec<Op>]) -> ConcRu
             failure = Some(f);
         }
     };
+    if no_final {
+        fail(("metricsrs:reporter-final-publish", "MetricReporter::shutdown() published no final readout".into()));
+    }
     let mut ctr_sum: BTreeMap<KeyId, u64> = BTreeMap::new();
     let mut ctr_seen: BTreeSet<KeyId> = BTreeSet::new();
     let mut hist_sum: BTreeMap<KeyId, BTreeMap<u64, u64>> = BTreeMap::new();
@@ -1388,7 +1445,7 @@ fn main() {
             let threads = if i % 5 == 4 { rng.range(1, 4) as usize } else { 8 };
             let per = rng.range(50, 600) as usize;
             let rep = if i % 4 == 0 { 1 } else { rng.range(5, 60) as usize };
-            let readers = if i % 7 == 6 { 2 } else { 1 };
+            let readers = if i % 7 == 6 { 2 } else if i % 7 == 3 { 0 } else { 1 };
             cases.push(Case::Conc { ez: rng.chance(1, 3), readers, rep, threads: gen_conc(&mut rng, threads, per) });
         }
     }
@@ -1451,7 +1508,10 @@ fn main() {
                     .failure
                     .as_ref()
                     .map(|(k, w)| (k.to_string(), w.clone())));
-                if let Some((key, _)) = failure {
+                if failure.is_some() {
+                    rep.bump("oracle-failing-cases");
+                }
+                if let Some((key, _)) = failure.filter(|(k, _)| !rep.oracle_failures.iter().any(|f| f.key == *k)) {
                     let ez = *ez;
                     let small = shrink_list(ops, |cand| {
                         Case::decode(&Case::Script { ez, ops: cand.to_vec() }.encode()).is_some()
@@ -1473,6 +1533,7 @@ fn main() {
                 rep.case(&enc, r.overlapping_readouts > 0 && updated);
                 rep.bump("kind:concurrent");
                 rep.bump(&format!("conc-threads:{}", threads.len()));
+                rep.bump(&format!("conc-readers:{}", if *readers == 0 { "MetricReporter task".to_string() } else { readers.to_string() }));
                 rep.bump_by("conc:readouts", r.readouts as u64);
                 rep.bump_by("conc:readouts-overlapping-updaters", r.overlapping_readouts as u64);
                 rep.bump_by("conc:ops", threads.iter().map(|t| (t.len() * *reps) as u64).sum());
@@ -1481,7 +1542,11 @@ fn main() {
                     .failure
                     .as_ref()
                     .map(|(k, w)| (k.to_string(), w.clone())));
-                if let Some((key, what)) = failure {
+                if failure.is_some() {
+                    rep.bump("oracle-failing-cases");
+                }
+                // one shrunk witness per failure class is enough (shrinking a concurrent case re-runs it many times)
+                if let Some((key, what)) = failure.filter(|(k, _)| !rep.oracle_failures.iter().any(|f| f.key == *k)) {
                     // shrink thread by thread; a candidate counts as failing if it fails in one of 6 runs
                     let (ez, readers, reps) = (*ez, *readers, *reps);
                     let mut cur: Vec<Vec<Op>> = threads.clone();
@@ -1550,6 +1615,22 @@ fn main() {
                 let got = mask_gauges(&canon_model_reply(reply), masked);
                 if *want != got {
                     disagreeing.push(*ci);
+                    // the first disagreeing script is shrunk (model and implementation re-run on every candidate)
+                    if let (Case::Script { ez, ops }, true) = (&cases[*ci], disagreeing.len() == 1) {
+                        let differs = |cand: &[Op]| -> Option<(String, String)> {
+                            let line = Case::Script { ez: *ez, ops: cand.to_vec() }.encode();
+                            Case::decode(&line)?;
+                            let r = run_script(*ez, cand);
+                            let imp = if r.entries.is_empty() { "-".to_string() } else { r.entries.join(" # ") };
+                            let m = canon_model_reply(run_driver(&args.driver, "metricsrs", &[line])?.first()?);
+                            if imp != m { Some((imp, m)) } else { None }
+                        };
+                        let small = shrink_list(ops, |cand| differs(cand).is_some());
+                        if let Some((imp, m)) = differs(&small) {
+                            rep.disagreement(component, &Case::Script { ez: *ez, ops: small }.encode(), &imp, &m);
+                            continue;
+                        }
+                    }
                     let case = &encoded[*ci];
                     let case = if case.len() > 4000 { format!("{}…", &case[..4000]) } else { case.clone() };
                     rep.disagreement(component, &case, want, &got);
